@@ -236,9 +236,30 @@ func inputLines(n int) string {
 	return sb.String()
 }
 
+// hang is called when one execution of the implementation does not return within the watchdog
+// time (an unnoticed cancellation under `while (1)`): it records the failure, writes the report
+// and ends the harness (the run cannot be abandoned otherwise).
+var hang func(src, mode string, lines int)
+
+const watchdog = 20 * time.Second
+
 // run executes the compiled program once in the given mode on a fresh Interpreter.
 // modes: exec | bg | live | pre | expired
-func (c *compiled) run(mode string, lines int) (o obs) {
+func (c *compiled) run(mode string, lines int) obs {
+	ch := make(chan obs, 1)
+	go func() { ch <- c.run1(mode, lines) }()
+	select {
+	case o := <-ch:
+		return o
+	case <-time.After(watchdog):
+		if hang != nil {
+			hang(c.src, mode, lines)
+		}
+		panic("execution does not return: " + c.src)
+	}
+}
+
+func (c *compiled) run1(mode string, lines int) (o obs) {
 	ns := c.ns
 	*ns = natState{}
 	it, err := interp.New(c.prog)
@@ -394,6 +415,13 @@ n == %d { cancel() } END { print n, m }`, 1+K%2000), "live")
 	add(mk("fail-after-cancel-in-forin", f(`BEGIN { for (i = 0; i < 50; i++) a[i] = 1; for (k in a) { n++; if (n == %d) cancel(); if (n == %d) fail() } print n }`, 1+K%20, 5+K%40), "live"))
 	add(mk("exit-after-cancel", f(`BEGIN { for (i = 0; i < %d; i++) { R[0] = i; if (i == %d) cancel(); if (i == %d) exit 3 } } END { print i }`, M, K, K+1+K%60), "live"))
 	add(mk("exit-after-cancel-long-end", f(`BEGIN { for (i = 0; i < %d; i++) { if (i == %d) cancel(); if (i == %d) exit 3 } } END { while (1) n++ }`, M, K, K+5), "live"))
+	// the record loop itself does not poll: rules that execute no opcode (model and implementation agree on that)
+	c = mk("rule-without-opcodes", `{ {} }`, "live")
+	c.lines = 1200 + K%300
+	add(c)
+	c = mk("end-only", f(`END { for (i = 0; i < %d; i++) R[0] = i; print 7 }`, 5+K%100), "live")
+	c.lines = 1200 + K%300
+	add(c)
 	// errors without cancellation
 	add(mk("fail-no-cancel", f(`BEGIN { for (i = 0; i < %d; i++) { R[0] = i; if (i == %d) fail() } }`, M, K), "live"))
 	add(mk("div-zero-no-cancel", f(`function q(a, b) { return a / b } BEGIN { for (i = %d; i >= 0; i--) { R[0] = i; x = q(10 * i, i) } }`, K%300), "live"))
@@ -616,23 +644,45 @@ func (ck *checker) oracle(cc ccase, c *compiled, e, x obs) {
 	}
 }
 
-// main-loop promptness in records: pre-cancelled context, N numbered records, what was printed
+// lineReader delivers one numbered record per Read call and counts the calls: the number of
+// records the interpreter has pulled from its input.
+type lineReader struct{ next, limit, reads int }
+
+func (r *lineReader) Read(p []byte) (int, error) {
+	if r.next > r.limit {
+		return 0, io.EOF
+	}
+	r.reads++
+	s := strconv.Itoa(r.next) + "\n"
+	r.next++
+	return copy(p, s), nil
+}
+
+// main-loop promptness in records: pre-cancelled context, numbered records delivered one per
+// read; how many records were consumed before the call returned
 func (ck *checker) recordsOracle(class, src string, lines int) {
 	rep := ck.rep
-	c, err := compile(src)
+	prog, err := parser.ParseProgram([]byte(src), nil)
 	if err != nil {
 		rep.HarnessError("records program does not parse: %s: %v", src, err)
 		return
 	}
 	rep.SearchEvals++
-	x := c.run("pre", lines)
-	n := 0
-	if x.out != "" {
-		n = strings.Count(x.out, "\n")
+	it, _ := interp.New(prog)
+	ctx, cancel := context.WithCancel(context.Background())
+	cancel()
+	rd := &lineReader{next: 1, limit: lines}
+	var out bytes.Buffer
+	_, err = it.ExecuteContext(ctx, &interp.Config{Stdin: rd, Output: &out, Error: io.Discard, Environ: []string{}})
+	got := "nil"
+	if err != nil {
+		got = err.Error()
 	}
-	if n > pollEvery || x.kind != "ctx" {
-		rep.Fail(hx.Failure{Class: class, Oracle: "records processed by the main loop after cancellation <= 1000, then the context's error",
-			Detail: map[string]any{"program": src, "mode": "pre", "lines": lines, "records_printed_after_cancellation": n, "got": x.kind, "expected": "ctx, at most 1000 records"}})
+	rep.Count(fmt.Sprintf("records-consumed-after-cancellation:%s=%d", class, rd.reads))
+	if rd.reads > pollEvery+1 || !errors.Is(err, context.Canceled) {
+		rep.Fail(hx.Failure{Class: class, Oracle: "records consumed by the main loop after cancellation <= 1000, then the context's error",
+			Detail: map[string]any{"program": src, "mode": "pre", "lines": lines, "records_consumed_after_cancellation": rd.reads,
+				"output_bytes": out.Len(), "got": got, "expected": "context canceled after at most 1000 records"}})
 	}
 }
 
@@ -724,10 +774,14 @@ func replay(path string) int {
 	}
 	rep := hx.NewReport("C15", 0, "replay")
 	ck := &checker{rep: rep}
+	hang = func(src, mode string, lines int) {
+		fmt.Println("STILL FAILS: ExecuteContext still running after 20 s")
+		os.Exit(1)
+	}
 	fmt.Printf("replay class=%s oracle=%q\nprogram: %s\nmode=%s lines=%d\n", doc.Failure.Class, doc.Failure.Oracle, src, mode, num("lines"))
 	if strings.HasPrefix(doc.Failure.Class, "runtime/") {
 		ck.runtimeEvidence()
-	} else if _, ok := d["records_printed_after_cancellation"]; ok {
+	} else if _, ok := d["records_consumed_after_cancellation"]; ok {
 		ck.recordsOracle(doc.Failure.Class, src, num("lines"))
 	} else {
 		c, err := compile(src)
@@ -769,6 +823,14 @@ func main() {
 	}
 	ck := &checker{rep: rep}
 	tStart := time.Now()
+	hang = func(src, mode string, lines int) {
+		rep.SearchEvals++
+		rep.Fail(hx.Failure{Class: "does-not-return/" + mode, Oracle: "the call returns (within 20 s of wall time)",
+			Detail: map[string]any{"program": src, "mode": mode, "lines": lines, "kmin": 0, "mustCtx": true, "printsTo": -1,
+				"got": "ExecuteContext still running after 20 s", "expected": "the context's error after at most ~1000 instructions"}})
+		rep.Write(o.Out)
+		os.Exit(0)
+	}
 
 	var cases []ccase
 	for i := 0; i < nTempl; i++ {
@@ -791,8 +853,10 @@ func main() {
 	for _, n := range []int{498, 499, 500, 501} {
 		// R[0]++ is two instructions: 2n instructions in all; the 1000th dispatch polls
 		c := mk("boundary-pre", "BEGIN { "+strings.Repeat("R[0]++; ", n)+"}", "pre")
+		c.mustCtx = 2*n >= pollEvery // the 1000th dispatch must poll
 		cases = append(cases, c)
 		c = mk("boundary-pre-odd", "BEGIN { x++; "+strings.Repeat("R[0]++; ", n)+"}", "pre")
+		c.mustCtx = 2*n+1 >= pollEvery
 		cases = append(cases, c)
 	}
 	for i := 0; i < nRand; i++ {
@@ -939,8 +1003,10 @@ func main() {
 		{"rule-counter-pattern", `{ n++ } n > 0`},
 		{"rule-range", `NR == 1, NR == 0`},
 		{"rule-regex", `/[0-9]/`},
-		{"rule-body-without-opcodes", `{ {} }`},
-		{"rule-body-without-opcodes", `BEGIN { x = 1 } { { } { } }`},
+		{"rule-getline", `{ getline; n++ }`},
+		{"record-loop-executes-no-opcode", `{ {} }`},
+		{"record-loop-executes-no-opcode", `BEGIN { x = 1 } { { } { } }`},
+		{"record-loop-executes-no-opcode", `END { print NR }`},
 	} {
 		ck.recordsOracle(t[0], t[1], 6000)
 	}
